@@ -38,6 +38,9 @@ def strat_lik(tier):
         'n': st.integers(10, 300), 'd': st.integers(1, 5), 'seed': st.integers(0, 10 ** 6), 'cond': st.sampled_from([1.0, 10.0, 100.0]),
         'far': st.sampled_from([0.0, 0.5, 2.0, 8.0]), 'penalty': st.sampled_from([0.0, 0.1, 0.5, 0.9, 1.0]),
         'glasso_penalty': st.sampled_from([0.0, 0.05, 0.3]),
+        # many summaries and / or summaries of a small or large scale (standard and robust variants): the covariance stays
+        # well conditioned but its determinant leaves the double range
+        'many': st.sampled_from([0, 0, 0, 40, 60, 150]), 'scale': st.sampled_from([1.0, 1.0, 1e-3, 0.05, 1e4]),
     })
 
 
@@ -77,16 +80,24 @@ def run_lik(case):
     n = max(n, d + 6)
     if variant in ('glasso', 'whitened-glasso') and d == 1:
         d = 2                   # sklearn's graphical lasso needs at least two features
+    scale = 1.0
+    if variant in ('standard', 'misspec-mean', 'misspec-variance'):
+        scale = case.get('scale', 1.0)
+        if case.get('many'):
+            d = case['many']
+            n = max(n, 2 * d + 10)
     rs = np.random.RandomState(case['seed'])
-    mu = rs.randn(d) * 2
-    S0 = _spd(d, rs, case['cond'])
+    mu = rs.randn(d) * 2 * scale
+    S0 = _spd(d, rs, case['cond']) * scale ** 2
     X = rs.multivariate_normal(mu, S0, size=n)
     y = mu + case['far'] * rs.randn(d) * np.sqrt(np.diag(S0))
-    ctx = 'variant=%s n=%d d=%d seed=%d cond=%r far=%r penalty=%r' % (variant, n, d, case['seed'], case['cond'], case['far'], case['penalty'])
+    ctx = 'variant=%s n=%d d=%d seed=%d cond=%r far=%r penalty=%r scale=%r' % (variant, n, d, case['seed'], case['cond'], case['far'], case['penalty'], scale)
     xm = X.mean(axis=0)
     Sx = np.atleast_2d(np.cov(X, rowvar=False))
-    labels = ['variant=' + variant, 'd=1' if d == 1 else 'd>1']
-    tol = 1e-9
+    labels = ['variant=' + variant, 'd=1' if d == 1 else ('d>1' if d <= 5 else 'd>=40')]
+    if scale != 1.0:
+        labels.append('scaled-summaries')
+    tol = 1e-9 if d <= 5 else 1e-8
     if variant == 'standard':
         fn = pm.standard_likelihood()
         ref = ref_mvn(y, xm, Sx)
@@ -343,6 +354,8 @@ def strat_mh(tier):
         'sigma': st.sampled_from([0.05, 0.3, 1.0, 3.0]), 'seed': st.integers(0, 2 ** 31 - 1), 'obs': st.sampled_from([0.0, 1.0, 3.0]),
         # the order in which sample(param_names=...) lists the parameters (None = model order)
         'order': st.one_of(st.none(), st.permutations([0, 1, 2])),
+        # a second sample() call on the same BSL object (a pilot run followed by the real run): (n, start away from the first start?)
+        'second': st.one_of(st.none(), st.none(), st.tuples(st.integers(3, 15), st.booleans())),
     })
 
 
@@ -395,6 +408,33 @@ def run_mh(case):
             with time_limit(300, 'C20:bsl-hangs', 'BSL.sample'):
                 res = bsl.sample(n, sigma, params0=params0.copy(), param_names=param_names,
                                  logit_transform_bound=[tuple(b) for b in bound] if use_tr else None, bar=False)
+    rs = np.random.RandomState(case['seed'])
+    labels0 = []
+    out = _judge_run(case, bsl, res, rs, n, params0, k, dists, bound, sigma, use_tr, nsr, bs, ctx, types, param_names)
+    if out is None:
+        return CaseResult(['borderline-acceptance'], None)
+    if case.get('second') is not None:
+        # the same object again: the generator stream goes on, everything else starts afresh
+        n2, away = case['second']
+        params2 = np.array([0.5 if away else 1.0] * k)
+        ctx2 = 'SECOND sample(%d) call on the same object, params0=%r, after: %s' % (n2, params2.tolist(), ctx)
+        LOG['sim'] = 0
+        LOG['lik'] = []
+        with must_not_raise(P, 'second BSL.sample; ' + ctx2):
+            with np.errstate(all='ignore'):
+                with time_limit(300, 'C20:bsl-hangs', 'BSL.sample'):
+                    res2 = bsl.sample(n2, sigma, params0=params2.copy(), param_names=param_names,
+                                      logit_transform_bound=[tuple(b) for b in bound] if use_tr else None, bar=False)
+        out2 = _judge_run(case, bsl, res2, rs, n2, params2, k, dists, bound, sigma, use_tr, nsr, bs, ctx2, types, param_names)
+        if out2 is None:
+            return CaseResult(['borderline-acceptance'], None)
+        labels0.append('second-sample-call')
+    labels, nontrivial = out
+    return CaseResult(labels + labels0, nontrivial)
+
+
+def _judge_run(case, bsl, res, rs, n, params0, k, dists, bound, sigma, use_tr, nsr, bs, ctx, types, param_names):
+    """Replay one sample() call with the reference Metropolis-Hastings chain on the generator stream `rs` (which is advanced)."""
     chain = np.array(bsl.state['params'])
     liks = list(LOG['lik'])
     nsim_calls = LOG['sim']
@@ -402,7 +442,6 @@ def run_mh(case):
     def logprior(th):
         with np.errstate(all='ignore'):
             return float(sum(dists[i](th[i]) for i in range(k)))
-    rs = np.random.RandomState(case['seed'])
     ref = np.zeros((n, k))
     ref[0] = params0
     li = 0
@@ -445,7 +484,7 @@ def run_mh(case):
             ref[i] = cur
             n_rej += 1
     if borderline:
-        return CaseResult(['borderline-acceptance'], None)
+        return None
     if li != len(liks):
         raise Violation('C20:simulated-for-rejected-prior', '%d synthetic likelihoods were evaluated but only %d proposals had finite prior density (%d proposals outside the prior support must be rejected without simulating); %s'
                         % (len(liks), li, n_out, ctx))
@@ -464,7 +503,7 @@ def run_mh(case):
         labels.append('proposal-outside-prior-support')
     kinds = set(types)
     informative = n_acc > 0 and n_rej > 0
-    return CaseResult(labels, True if (informative and use_tr and 'two-sided' in kinds and ({'lower', 'upper'} & kinds)) or (informative and n_out > 0) else None)
+    return labels, (True if (informative and use_tr and 'two-sided' in kinds and ({'lower', 'upper'} & kinds)) or (informative and n_out > 0) else None)
 
 
 CHECK = Check(
